@@ -11,8 +11,9 @@
 (*            TreeGrow model, agreement with one of the model's trees      *)
 (*            (disagreement is drift, not a violation);                    *)
 (*   Refit    the same input fitted again: identical observable tree;      *)
-(*   Scaled   features multiplied by 2^shift: identical tree with every    *)
-(*            threshold multiplied by 2^shift;                             *)
+(*   Scaled   features multiplied by 2^shift (|shift| up to 200, either    *)
+(*            sign): identical tree with every threshold multiplied by     *)
+(*            exactly 2^shift, and itself a fit that satisfies TreeVerdict;*)
 (*   ArgSort  quick_argsort_mut sorts.                                     *)
 (*                                                                         *)
 (* The spec never blocks: a failing event prints <<"BAD", ...>> with the   *)
@@ -31,7 +32,8 @@ NoFit == [run |-> -1, sig |-> <<>>]
 
 HitNames == {"TreeFit", "Cls", "Reg", "DepthLimited", "LeafLimit", "OptReg", "OptNodesChecked", "OptNodesSkipped",
              "CompleteReg", "SideCond", "OptGini", "OptEntropy", "OptError", "CompleteCls", "Reproduce",
-             "Refit", "Scaled", "Orphan", "ArgSort", "Replayed", "Drift"}
+             "Refit", "Scaled", "ScaledFar", "Orphan", "ArgSort", "Replayed", "Drift",
+             "Adjacent", "F32", "NdarrayF", "NdarrayC", "Nalgebra"}
 
 Bump(h, names) == [x \in DOMAIN h |-> h[x] + (IF x \in names THEN 1 ELSE 0)]
 Add(h, name, k) == [h EXCEPT ![name] = @ + k]
@@ -42,6 +44,9 @@ Bad(e, clause) == PrintT(<<"BAD", l, e.run, e.ev, clause>>)
 Exercised(e, r) ==
     {"TreeFit"}
     \cup (IF e.kind = "cls" THEN {"Cls"} ELSE {"Reg"})
+    \cup (IF e.family = "adjacent" /\ Len(e.nodes) > 1 THEN {"Adjacent"} ELSE {})
+    \cup (CASE e.backend = "dense32" -> {"F32"} [] e.backend = "ndarray_f" -> {"NdarrayF"}
+            [] e.backend = "ndarray_c" -> {"NdarrayC"} [] e.backend = "nalgebra" -> {"Nalgebra"} [] OTHER -> {})
     \cup (IF e.maxDepth > 0 THEN {"DepthLimited"} ELSE {})
     \cup (IF e.msl > 1 /\ Len(e.nodes) > 1 THEN {"LeafLimit"} ELSE {})
     \cup (IF e.kind = "reg" /\ r.opt > 0 THEN {"OptReg"} ELSE {})
@@ -69,14 +74,24 @@ FitStep(e) ==
                                     "OptNodesChecked", r.opt), "OptNodesSkipped", r.inner - r.opt)
             ELSE /\ Bad(e, r.c) /\ nbad' = nbad + 1 /\ UNCHANGED hits
 
+(* Refit: the same input again.  Scaled: the features times 2^shift (shift of either sign and up
+   to +-200: tiny and huge magnitudes); the record is a complete fit of its own, judged by every
+   predicate like any other fit, and its bit signature must be the unscaled one with every
+   threshold multiplied by exactly 2^shift. *)
 RefitStep(e) ==
     /\ UNCHANGED last
     /\ IF last.run # e.run
        THEN hits' = Bump(hits, {"Orphan"}) /\ UNCHANGED nbad      \* its TreeFit already failed
-       ELSE IF e.status = "ok" /\ SameTreeUpToShift(last.sig, e.sig, e.shift)
-            THEN hits' = Bump(hits, {e.ev}) /\ UNCHANGED nbad
-            ELSE /\ Bad(e, IF e.ev = "Refit" THEN "Deterministic" ELSE "ScaleInvariant")
+       ELSE IF ~(e.status = "ok" /\ SameTreeUpToShift(last.sig, e.sig, e.shift))
+            THEN /\ Bad(e, IF e.ev = "Refit" THEN "Deterministic" ELSE "ScaleInvariant")
                  /\ nbad' = nbad + 1 /\ UNCHANGED hits
+            ELSE IF e.ev = "Refit"
+                 THEN hits' = Bump(hits, {"Refit"}) /\ UNCHANGED nbad
+                 ELSE LET r == TreeVerdict(e) IN
+                      IF r.c = "ok"
+                      THEN /\ hits' = Bump(hits, {"Scaled"} \cup (IF e.shift >= 50 \/ e.shift <= -50 THEN {"ScaledFar"} ELSE {}))
+                           /\ UNCHANGED nbad
+                      ELSE Bad(e, r.c) /\ nbad' = nbad + 1 /\ UNCHANGED hits
 
 SortStep(e) ==
     /\ UNCHANGED last
